@@ -175,7 +175,7 @@ func c15Ops() []Op {
 }
 
 func runC15(r *ev.Run) {
-	r.Rule = "every header byte 0..99 x every value 0..255 on a valid base image per page size, judged at Open and on the re-read path of a long-lived handle (swap in, read with every operation, swap back, read again), and as the first transaction of a handle that was opened before the change; non-trivial = a mutation that changes the reference verdict (must-reject) or a must-accept mutation of a field"
+	r.Rule = "every header byte 0..99 x every value 0..255 on a valid base image per page size, judged at Open (must-reject headers also with the read lock refused and with a writer reported in RESERVED while the file is opened) and on the re-read path of a long-lived handle (swap in, read with every operation, swap back, read again), and as the first transaction of a handle that was opened before the change; non-trivial = a mutation that changes the reference verdict (must-reject) or a must-accept mutation of a field"
 	sizes := []int{512, 4096, 65536}
 	if r.Thorough() {
 		sizes = PageSizes
@@ -269,6 +269,19 @@ func c15One(r *ev.Run, ps int, base, hdr []byte, off, v int, ops []Op, baseRes [
 			// property says rejected "instead of being read": opening is the
 			// rejection point.
 			r.Violation("C15:open-accepts:"+why, fmt.Sprintf("Open accepts a header that must be refused (%s: byte %d=%d)", why, off, v), art)
+		}
+		// the same under the other answers the environment can give while the file is opened: the read lock
+		// refused (a writer is committing), a writer reported in RESERVED
+		for _, env := range []string{"lock-refused", "reserved"} {
+			me := vpager.NewMem(base)
+			me.Hdr = hdr
+			me.Reserved = env == "reserved"
+			fp := &vpager.FaultPager{P: me, FailLock: env == "lock-refused"}
+			_, _, eerr := vpager.Open(fp)
+			r.Trans(1)
+			if eerr == nil {
+				r.Violation("C15:open-accepts:"+env+":"+why, fmt.Sprintf("Open accepts a header that must be refused (%s: byte %d=%d) when the environment answers %s while the file is opened", why, off, v, env), art)
+			}
 		}
 	case hvAccept:
 		if oerr != nil {
